@@ -59,7 +59,10 @@ def main():
                 'round': ROUND,
                 'files': conf.get('files'),
                 'summary': meta.get('summary'),
-                'needs_to_manifest': meta.get('needs'),
+                'needs_to_manifest': meta.get('needs_to_manifest') or meta.get('needs'),
+                'kind': meta.get('kind'),
+                'why_it_looks_fine': meta.get('why_it_looks_fine'),
+                'sites': meta.get('sites'),
                 'refactoring': meta.get('refactoring'),
                 'slip': meta.get('slip'),
                 'origin': 'written by a fresh sub-agent that saw only the text of the property and its own scratch worktree of /repo (nothing from /verif)',
